@@ -221,7 +221,13 @@ def readFromStream(substrate, size=-1, context=None):
     """
     while True:
         # this will block unless stream is non-blocking
-        received = substrate.read(size)
+        try:
+            received = substrate.read(size)
+
+        except OverflowError:
+            raise error.PyAsn1Error(
+                'Unsupported substrate size %s' % (size,), context=context)
+
         if received is None:  # non-blocking stream can do this
             yield error.SubstrateUnderrunError(context=context)
 
